@@ -447,7 +447,11 @@ def judge_line(line, answer, train_seqs, props, traced=False):
                     bad("C05", i, "status is not an integer", None, f[0])
                     continue
                 if st != e["status"]:
-                    p = ("C12", "C05") if e["verb"] in ("POWERON", "POWEROFF") else ("C18", "C05") if e["verb"] in ("FAKE_DROP", "RFMUTE") else "C05"
+                    # C18 speaks about the forms `FAKE_DROP n [period]` and `RFMUTE 0|1`; any other argument count of these
+                    # verbs is a matter of C05 only
+                    nargs = len(e["args"])
+                    c18_form = (e["verb"] == "FAKE_DROP" and nargs in (1, 2)) or (e["verb"] == "RFMUTE" and nargs == 1)
+                    p = ("C12", "C05") if e["verb"] in ("POWERON", "POWEROFF") else ("C18", "C05") if c18_form else "C05"
                     bad(p, i, "status", e["status"], st)
                 results = f[1 + len(want_args):]
                 if e["res"] is None:
